@@ -29,6 +29,8 @@ Pbkdf2HmacSha512(pw, salt, rounds, dkLen) == Missing
 
 \* Unicode normalisation form KD on code-point sequences
 Nfkd(cps) == Missing
+NormForm(form, cps) == Missing     \* Unicode normalisation form "NFD" | "NFC" | "NFKD" | "NFKC" of a code point sequence
+CpClass(cp) == Missing             \* "unassigned" | "surrogate" | "private" | "mark" | "other" (general category class)
 
 \* modular arithmetic on big-endian byte strings, result padded to Len(m)
 BnMulMod(a, b, m) == Missing
